@@ -86,7 +86,7 @@ class BaseDomain:
                   "FloatingPointError", "StopIteration", "OverflowError"]:
             d[n] = ExcClass(n)
         d.update({
-            "range": range, "len": self.b_len, "min": self.b_min, "max": self.b_max, "abs": self.b_abs,
+            "range": range, "slice": slice, "len": self.b_len, "min": self.b_min, "max": self.b_max, "abs": self.b_abs,
             "print": lambda *a, **k: None, "enumerate": lambda it, start=0: list(enumerate(self._it(it), start)),
             "zip": lambda *its: list(zip(*[self._it(i) for i in its])),
             "reversed": lambda it: list(reversed(self._it(it))),
